@@ -2,6 +2,7 @@ package vrt
 
 import (
 	"cmp"
+	"reflect"
 	"sort"
 )
 
@@ -30,4 +31,74 @@ func FG() {
 		return
 	}
 	r.point(&Op{Kind: KYield, Label: "fg"})
+}
+
+// Map access announcements (statement-level files only): the Go runtime aborts
+// the process when a map is written while another goroutine reads or writes
+// it. The announcing thread marks the map, yields once (so that an
+// unsynchronised access of another thread can overlap) and unmarks it.
+var (
+	mapWriter  = map[uintptr]*Thread{}
+	mapReaders = map[uintptr]map[*Thread]int{}
+)
+
+func init() {
+	OnReset(func() {
+		mapWriter = map[uintptr]*Thread{}
+		mapReaders = map[uintptr]map[*Thread]int{}
+	})
+}
+
+func mapKey(m interface{}) uintptr {
+	v := reflect.ValueOf(m)
+	if v.Kind() != reflect.Map || v.IsNil() {
+		return 0
+	}
+	return v.Pointer()
+}
+
+// MapWrite announces a write access to m.
+func MapWrite(m interface{}) {
+	r := R
+	if r == nil || !fine || r.aborting || !r.exploring {
+		return
+	}
+	k := mapKey(m)
+	if k == 0 {
+		return
+	}
+	t := r.cur
+	if w := mapWriter[k]; w != nil && w != t {
+		Fatal("concurrent map writes")
+	}
+	for u, n := range mapReaders[k] {
+		if u != t && n > 0 {
+			Fatal("concurrent map read and map write")
+		}
+	}
+	mapWriter[k] = t
+	r.point(&Op{Kind: KYield, Label: "map-write"})
+	delete(mapWriter, k)
+}
+
+// MapRead announces a read access to m.
+func MapRead(m interface{}) {
+	r := R
+	if r == nil || !fine || r.aborting || !r.exploring {
+		return
+	}
+	k := mapKey(m)
+	if k == 0 {
+		return
+	}
+	t := r.cur
+	if w := mapWriter[k]; w != nil && w != t {
+		Fatal("concurrent map read and map write")
+	}
+	if mapReaders[k] == nil {
+		mapReaders[k] = map[*Thread]int{}
+	}
+	mapReaders[k][t]++
+	r.point(&Op{Kind: KYield, Label: "map-read"})
+	mapReaders[k][t]--
 }
